@@ -8,6 +8,7 @@
 //     MultiSegment.Ring: the three boolean tests
 //   - osmgeojson/build_polygon.go polygonContains: the crossing condition (tie rule and the
 //     division expression, over exact rationals)
+//
 // Each item is emitted as "Some <definition>" when the source has the recognisable shape and as
 // None otherwise (a restructured but equivalent source is then tied by the correspondence
 // harness only); theories/C16/GenOk.v proves every recognised item equal to the model.
@@ -23,12 +24,10 @@ import (
 	"os"
 	"path/filepath"
 	"strings"
-
-	"verif/translator/tr"
 )
 
 type ctx struct {
-	p   *tr.Pkg
+	p   *Pkg
 	env map[string]string // printed Go sub-expression -> Coq term
 	q   bool              // numbers are exact rationals (inject_Z at the leaves)
 }
@@ -183,84 +182,334 @@ func coqBool(b bool) string {
 	return "false"
 }
 
-// joinCases reads the if / else-if chain of Join's range loop.
-func joinCases(c *ctx, fn *ast.FuncDecl) item {
-	it := item{name: "gen_join_cases", typ: "list (bool * bool * bool * bool * bool)"}
-	var rng *ast.RangeStmt
-	ast.Inspect(fn, func(n ast.Node) bool {
-		if r, ok := n.(*ast.RangeStmt); ok && rng == nil {
-			rng = r
+// reachable: fn followed by the package-level functions it calls (transitively), in call order.
+func reachable(c *ctx, decls map[string]*ast.FuncDecl, name string) []*ast.FuncDecl {
+	var out []*ast.FuncDecl
+	seen := map[string]bool{}
+	var visit func(n string)
+	visit = func(n string) {
+		fd := decls[n]
+		if fd == nil || seen[n] || fd.Body == nil {
+			return
 		}
-		return rng == nil
-	})
-	if rng == nil || len(rng.Body.List) != 1 {
-		it.why = "range loop with a single if statement not found"
-		return it
+		seen[n] = true
+		out = append(out, fd)
+		ast.Inspect(fd.Body, func(x ast.Node) bool {
+			if call, ok := x.(*ast.CallExpr); ok {
+				if id, ok := call.Fun.(*ast.Ident); ok {
+					visit(id.Name)
+				}
+			}
+			return true
+		})
 	}
-	val := c.src(rng.Value) // "segment"
-	var rows []string
-	var st ast.Stmt = rng.Body.List[0]
-	for st != nil {
-		is, ok := st.(*ast.IfStmt)
-		if !ok {
-			it.why = "else branch is not an if statement"
-			return it
-		}
-		cond := c.src(is.Cond)
-		var chainLast, segFirst bool
-		switch cond {
-		case "last.Equal(" + val + ".First())":
-			chainLast, segFirst = true, true
-		case "last.Equal(" + val + ".Last())":
-			chainLast, segFirst = true, false
-		case "first.Equal(" + val + ".Last())":
-			chainLast, segFirst = false, false
-		case "first.Equal(" + val + ".First())":
-			chainLast, segFirst = false, true
-		default:
-			it.why = "unrecognised match condition " + cond
-			return it
-		}
-		var rev, haveTrim, trimFirst, havePut, putEnd, brk, found bool
-		for _, s := range is.Body.List {
-			switch c.src(s) {
-			case val + ".Reverse()":
-				if haveTrim || havePut {
-					it.why = "Reverse after trimming"
-					return it
-				}
-				rev = true
-			case val + ".Line = " + val + ".Line[1:]":
-				haveTrim, trimFirst = true, true
-			case val + ".Line = " + val + ".Line[:len(" + val + ".Line)-1]":
-				haveTrim, trimFirst = true, false
-			case "current = append(current, " + val + ")":
-				if !haveTrim {
-					it.why = "put before trimming"
-					return it
-				}
-				havePut, putEnd = true, true
-			case "current = append(MultiSegment{" + val + "}, current...)":
-				if !haveTrim {
-					it.why = "put before trimming"
-					return it
-				}
-				havePut, putEnd = true, false
-			case "foundAt = i":
-				found = true
-			case "break":
-				brk = true
-			default:
-				it.why = "unrecognised statement " + c.src(s)
-				return it
+	visit(name)
+	return out
+}
+
+type pcond struct {
+	e   ast.Expr
+	neg bool
+}
+
+func terminates(b *ast.BlockStmt) bool {
+	if len(b.List) == 0 {
+		return false
+	}
+	switch b.List[len(b.List)-1].(type) {
+	case *ast.BranchStmt, *ast.ReturnStmt:
+		return true
+	}
+	return false
+}
+
+// pathsTo collects, for every statement of fn satisfying target, the condition under which it is
+// reached inside its innermost loop body: enclosing if / else / switch-case conditions and the
+// negations of preceding "if C { ...; continue | break | return }" guards (early-exit
+// flattening).  Normal form: a conjunction of possibly negated Go conditions.
+func pathsTo(fn *ast.FuncDecl, target func(ast.Stmt) bool) [][]pcond {
+	var found [][]pcond
+	var block func(list []ast.Stmt, conds []pcond)
+	var stmt func(s ast.Stmt, conds []pcond)
+	block = func(list []ast.Stmt, conds []pcond) {
+		cur := append([]pcond{}, conds...)
+		for _, s := range list {
+			stmt(s, cur)
+			if is, ok := s.(*ast.IfStmt); ok && is.Else == nil && is.Init == nil && terminates(is.Body) {
+				cur = append(cur, pcond{is.Cond, true})
 			}
 		}
-		if !haveTrim || !havePut || !found || !brk {
-			it.why = "incomplete case " + cond
+	}
+	stmt = func(s ast.Stmt, conds []pcond) {
+		if target(s) {
+			found = append(found, append([]pcond{}, conds...))
+			return
+		}
+		switch x := s.(type) {
+		case *ast.BlockStmt:
+			block(x.List, conds)
+		case *ast.IfStmt:
+			block(x.Body.List, append(append([]pcond{}, conds...), pcond{x.Cond, false}))
+			if x.Else != nil {
+				stmt(x.Else, append(append([]pcond{}, conds...), pcond{x.Cond, true}))
+			}
+		case *ast.ForStmt:
+			block(x.Body.List, nil)
+		case *ast.RangeStmt:
+			block(x.Body.List, nil)
+		case *ast.SwitchStmt:
+			if x.Tag != nil {
+				return
+			}
+			prev := append([]pcond{}, conds...)
+			for _, cc := range x.Body.List {
+				cl := cc.(*ast.CaseClause)
+				if len(cl.List) == 1 {
+					block(cl.Body, append(append([]pcond{}, prev...), pcond{cl.List[0], false}))
+					prev = append(prev, pcond{cl.List[0], true})
+				}
+			}
+		}
+	}
+	block(fn.Body.List, nil)
+	return found
+}
+
+// conj translates a path condition
+func (c *ctx) conj(conds []pcond) (string, error) {
+	out := ""
+	for _, pc := range conds {
+		s, k, err := c.expr(pc.e)
+		if err != nil {
+			return "", err
+		}
+		if k != boolean {
+			return "", fmt.Errorf("condition %s is not boolean", c.src(pc.e))
+		}
+		if pc.neg {
+			s = "(negb " + s + ")"
+		}
+		if out == "" {
+			out = s
+		} else {
+			out = "(andb " + out + " " + s + ")"
+		}
+	}
+	if out == "" {
+		return "", fmt.Errorf("empty condition")
+	}
+	return out, nil
+}
+
+// ---- Join: the cases of the range loop, as an if / else-if chain or a tagless switch, possibly
+// in a helper, with the effect of each case read through small helper functions.
+
+type effect struct {
+	rev, trimmed, trimFirst, put, putEnd bool
+}
+
+func (c *ctx) effects(decls map[string]*ast.FuncDecl, stmts []ast.Stmt, val, cur string, e *effect, depth int) error {
+	putExpr := func(x ast.Expr) (bool, error) {
+		switch c.src(x) {
+		case "append(" + cur + ", " + val + ")":
+			if !e.trimmed || e.put {
+				return false, fmt.Errorf("put before trimming")
+			}
+			e.put, e.putEnd = true, true
+			return true, nil
+		case "append(MultiSegment{" + val + "}, " + cur + "...)":
+			if !e.trimmed || e.put {
+				return false, fmt.Errorf("put before trimming")
+			}
+			e.put, e.putEnd = true, false
+			return true, nil
+		}
+		if call, ok := x.(*ast.CallExpr); ok && depth < 3 {
+			if id, ok := call.Fun.(*ast.Ident); ok {
+				if h := decls[id.Name]; h != nil && h.Recv == nil && h.Body != nil && len(call.Args) == 2 &&
+					h.Type.Params != nil && len(h.Type.Params.List) == 2 &&
+					len(h.Type.Params.List[0].Names) == 1 && len(h.Type.Params.List[1].Names) == 1 {
+					hm, hs := "", ""
+					for k, f := range h.Type.Params.List {
+						switch c.src(f.Type) {
+						case "MultiSegment":
+							if c.src(call.Args[k]) != cur {
+								return false, fmt.Errorf("helper %s called with %s", id.Name, c.src(call.Args[k]))
+							}
+							hm = f.Names[0].Name
+						case "Segment":
+							if c.src(call.Args[k]) != val {
+								return false, fmt.Errorf("helper %s called with %s", id.Name, c.src(call.Args[k]))
+							}
+							hs = f.Names[0].Name
+						}
+					}
+					if hm == "" || hs == "" {
+						return false, fmt.Errorf("helper %s: unexpected parameters", id.Name)
+					}
+					was := e.put
+					if err := c.effects(decls, h.Body.List, hs, hm, e, depth+1); err != nil {
+						return false, err
+					}
+					return e.put && !was, nil
+				}
+			}
+		}
+		return false, nil
+	}
+	for _, s := range stmts {
+		src := c.src(s)
+		switch {
+		case src == val+".Reverse()":
+			if e.trimmed || e.put {
+				return fmt.Errorf("Reverse after trimming")
+			}
+			e.rev = !e.rev
+		case src == val+".Line = "+val+".Line[1:]":
+			if e.trimmed || e.put {
+				return fmt.Errorf("trimmed twice")
+			}
+			e.trimmed, e.trimFirst = true, true
+		case src == val+".Line = "+val+".Line[:len("+val+".Line)-1]":
+			if e.trimmed || e.put {
+				return fmt.Errorf("trimmed twice")
+			}
+			e.trimmed, e.trimFirst = true, false
+		case src == "break" || strings.HasPrefix(src, "foundAt = "):
+			// control only
+		default:
+			var x ast.Expr
+			if as, ok := s.(*ast.AssignStmt); ok && len(as.Lhs) == 1 && len(as.Rhs) == 1 && c.src(as.Lhs[0]) == cur {
+				x = as.Rhs[0]
+			} else if rs, ok := s.(*ast.ReturnStmt); ok && len(rs.Results) >= 1 {
+				x = rs.Results[0]
+			}
+			if x == nil {
+				return fmt.Errorf("unrecognised statement %s", src)
+			}
+			ok, err := putExpr(x)
+			if err != nil {
+				return err
+			}
+			if !ok {
+				return fmt.Errorf("unrecognised statement %s", src)
+			}
+		}
+	}
+	return nil
+}
+
+func joinCases(c *ctx, decls map[string]*ast.FuncDecl) item {
+	it := item{name: "gen_join_cases", typ: "list (bool * bool * bool * bool * bool)"}
+	type branch struct {
+		cond ast.Expr
+		body []ast.Stmt
+	}
+	var rng *ast.RangeStmt
+	var host *ast.FuncDecl
+	n := 0
+	for _, fn := range reachable(c, decls, "Join") {
+		ast.Inspect(fn.Body, func(x ast.Node) bool {
+			if r, ok := x.(*ast.RangeStmt); ok && len(r.Body.List) == 1 {
+				// the loop that tests end points: its first condition is an Equal call
+				first := ""
+				switch st := r.Body.List[0].(type) {
+				case *ast.IfStmt:
+					first = c.src(st.Cond)
+				case *ast.SwitchStmt:
+					if st.Tag == nil && len(st.Body.List) > 0 {
+						if cl := st.Body.List[0].(*ast.CaseClause); len(cl.List) == 1 {
+							first = c.src(cl.List[0])
+						}
+					}
+				}
+				if strings.Contains(first, ".Equal(") {
+					rng, host = r, fn
+					n++
+				}
+			}
+			return true
+		})
+	}
+	if n != 1 || rng.Value == nil {
+		it.why = "range loop over the segments with a single if / switch statement not found (or not unique)"
+		return it
+	}
+	val := c.src(rng.Value)
+	var branches []branch
+	switch st := rng.Body.List[0].(type) {
+	case *ast.IfStmt:
+		var s ast.Stmt = st
+		for s != nil {
+			is, ok := s.(*ast.IfStmt)
+			if !ok || is.Init != nil {
+				it.why = "else branch is not an if statement"
+				return it
+			}
+			branches = append(branches, branch{is.Cond, is.Body.List})
+			s = is.Else
+		}
+	case *ast.SwitchStmt:
+		if st.Tag != nil || st.Init != nil {
+			it.why = "switch with a tag"
 			return it
 		}
-		rows = append(rows, fmt.Sprintf("(%s, %s, %s, %s, %s)", coqBool(chainLast), coqBool(segFirst), coqBool(rev), coqBool(trimFirst), coqBool(putEnd)))
-		st = is.Else
+		for _, cc := range st.Body.List {
+			cl := cc.(*ast.CaseClause)
+			if len(cl.List) != 1 {
+				it.why = "default or multi-expression case"
+				return it
+			}
+			branches = append(branches, branch{cl.List[0], cl.Body})
+		}
+	}
+	// which local names denote the first / last point of the chain, and the chain itself
+	ends := map[string]bool{} // name -> is last
+	cur := ""
+	ast.Inspect(host.Body, func(x ast.Node) bool {
+		if as, ok := x.(*ast.AssignStmt); ok && as.Tok == token.DEFINE && len(as.Lhs) == 1 && len(as.Rhs) == 1 {
+			if call, ok := as.Rhs[0].(*ast.CallExpr); ok && len(call.Args) == 0 {
+				if sel, ok := call.Fun.(*ast.SelectorExpr); ok && (sel.Sel.Name == "First" || sel.Sel.Name == "Last") {
+					ends[c.src(as.Lhs[0])] = sel.Sel.Name == "Last"
+					cur = c.src(sel.X)
+				}
+			}
+		}
+		return true
+	})
+	var rows []string
+	for _, b := range branches {
+		call, ok := b.cond.(*ast.CallExpr)
+		if !ok || len(call.Args) != 1 {
+			it.why = "unrecognised match condition " + c.src(b.cond)
+			return it
+		}
+		sel, ok := call.Fun.(*ast.SelectorExpr)
+		chainLast, known := ends[c.src(sel.X)]
+		if !ok || sel.Sel.Name != "Equal" || !known {
+			it.why = "unrecognised match condition " + c.src(b.cond)
+			return it
+		}
+		var segFirst bool
+		switch c.src(call.Args[0]) {
+		case val + ".First()":
+			segFirst = true
+		case val + ".Last()":
+			segFirst = false
+		default:
+			it.why = "unrecognised match condition " + c.src(b.cond)
+			return it
+		}
+		var e effect
+		if err := c.effects(decls, b.body, val, cur, &e, 0); err != nil {
+			it.why = "case " + c.src(b.cond) + ": " + err.Error()
+			return it
+		}
+		if !e.trimmed || !e.put {
+			it.why = "incomplete case " + c.src(b.cond)
+			return it
+		}
+		rows = append(rows, fmt.Sprintf("(%s, %s, %s, %s, %s)", coqBool(chainLast), coqBool(segFirst), coqBool(e.rev), coqBool(e.trimFirst), coqBool(e.putEnd)))
 	}
 	it.def = "[" + strings.Join(rows, "; ") + "]"
 	return it
@@ -272,12 +521,12 @@ func main() {
 		fmt.Fprintln(os.Stderr, err)
 		os.Exit(1)
 	}
-	mp, err := tr.Load(filepath.Join(repo, "internal", "mputil"), "github.com/paulmach/osm/internal/mputil")
+	mp, err := Load(filepath.Join(repo, "internal", "mputil"), "github.com/paulmach/osm/internal/mputil")
 	if err != nil {
 		fmt.Fprintln(os.Stderr, "translator mputil:", err)
 		os.Exit(1)
 	}
-	gj, err := tr.Load(filepath.Join(repo, "osmgeojson"), "github.com/paulmach/osm/osmgeojson")
+	gj, err := Load(filepath.Join(repo, "osmgeojson"), "github.com/paulmach/osm/osmgeojson")
 	if err != nil {
 		fmt.Fprintln(os.Stderr, "translator mputil:", err)
 		os.Exit(1)
@@ -292,26 +541,69 @@ func main() {
 	md := mp.FuncDecls()
 
 	// Join
-	if fn := md["Join"]; fn != nil {
+	if md["Join"] != nil {
 		c := &ctx{p: mp}
-		joinCases(c, fn).emit(&b)
-		c.env = map[string]string{"foundAt": "found_at", "len(segments)": "len"}
-		var cond ast.Expr
-		ast.Inspect(fn, func(n ast.Node) bool {
-			if is, ok := n.(*ast.IfStmt); ok && cond == nil && strings.HasPrefix(c.src(is.Cond), "foundAt <") {
-				cond = is.Cond
-			}
-			return cond == nil
-		})
-		boolExpr(c, "gen_join_first_half", "Z -> Z -> bool", "(found_at len : Z)", cond, "test of the removal not found").emit(&b)
+		joinCases(c, md).emit(&b)
+		// the half test of the removal: "X < len(S)/2", in Join or a helper
+		var cond *ast.BinaryExpr
+		n := 0
+		for _, fn := range reachable(c, md, "Join") {
+			ast.Inspect(fn.Body, func(x ast.Node) bool {
+				if is, ok := x.(*ast.IfStmt); ok {
+					if be, ok := is.Cond.(*ast.BinaryExpr); ok && be.Op == token.LSS {
+						if r, ok := be.Y.(*ast.BinaryExpr); ok && r.Op == token.QUO && c.src(r.Y) == "2" && strings.HasPrefix(c.src(r.X), "len(") {
+							cond = be
+							n++
+						}
+					}
+				}
+				return true
+			})
+		}
+		if n == 1 {
+			c.env = map[string]string{c.src(cond.X): "found_at", c.src(cond.Y.(*ast.BinaryExpr).X): "len"}
+			boolExpr(c, "gen_join_first_half", "Z -> Z -> bool", "(found_at len : Z)", cond, "").emit(&b)
+		} else {
+			missing(item{name: "gen_join_first_half", typ: "Z -> Z -> bool"}, "test of the removal not found")
+		}
 	} else {
 		missing(item{name: "gen_join_cases", typ: "list (bool * bool * bool * bool * bool)"}, "Join not found")
 		missing(item{name: "gen_join_first_half", typ: "Z -> Z -> bool"}, "Join not found")
 	}
-	// compact
+	// compact: "if SKIP { continue }" or "if KEEP { ms[at] = s; ... }"
 	if fn := md["compact"]; fn != nil {
-		c := &ctx{p: mp, env: map[string]string{"len(s.Line)": "len"}}
-		boolExpr(c, "gen_compact_skip", "Z -> bool", "(len : Z)", findIf(c, fn, "continue"), "skip test not found").emit(&b)
+		c := &ctx{p: mp, env: map[string]string{}}
+		it := item{name: "gen_compact_skip", typ: "Z -> bool"}
+		var rg *ast.RangeStmt
+		ast.Inspect(fn.Body, func(x ast.Node) bool {
+			if r, ok := x.(*ast.RangeStmt); ok && rg == nil {
+				rg = r
+			}
+			return true
+		})
+		if rg != nil && rg.Value != nil {
+			c.env["len("+c.src(rg.Value)+".Line)"] = "len"
+			paths := pathsTo(fn, func(s ast.Stmt) bool {
+				as, ok := s.(*ast.AssignStmt)
+				if !ok || len(as.Lhs) != 1 {
+					return false
+				}
+				_, isIdx := as.Lhs[0].(*ast.IndexExpr)
+				return isIdx && c.src(as.Rhs[0]) == c.src(rg.Value)
+			})
+			if len(paths) == 1 {
+				if keep, err := c.conj(paths[0]); err == nil {
+					it.def = "fun (len : Z) => (negb " + keep + ")"
+				} else {
+					it.why = err.Error()
+				}
+			} else {
+				it.why = "the statement keeping a segment was not found (or not unique)"
+			}
+		} else {
+			it.why = "range loop not found"
+		}
+		it.emit(&b)
 	} else {
 		missing(item{name: "gen_compact_skip", typ: "Z -> bool"}, "compact not found")
 	}
@@ -359,35 +651,74 @@ func main() {
 			missing(item{name: n[0], typ: n[1]}, "Ring not found")
 		}
 	}
-	// polygonContains: the coordinates must be bound as in the model
+	// polygonContains: the condition under which "inside = !inside" is reached, in polygonContains
+	// or in a helper it calls; the coordinates must be bound to a point and to two ring vertices
+	// (which of the two is the previous one does not matter: the test is symmetric, crosses_sym)
 	it := item{name: "gen_contains_crosses", typ: "Z -> Z -> Z -> Z -> Z -> Z -> bool"}
-	if fn := gj.FuncDecls()["polygonContains"]; fn != nil {
-		c := &ctx{p: gj, q: true, env: map[string]string{"x": "x", "y": "y", "xi": "xi", "yi": "yi", "xj": "xj", "yj": "yj"}}
-		binds := map[string]bool{}
-		ast.Inspect(fn, func(n ast.Node) bool {
-			if as, ok := n.(*ast.AssignStmt); ok && as.Tok == token.DEFINE {
-				binds[c.src(as)] = true
+	gd := gj.FuncDecls()
+	if gd["polygonContains"] != nil {
+		c := &ctx{p: gj, q: true}
+		var host *ast.FuncDecl
+		var paths [][]pcond
+		for _, fn := range reachable(c, gd, "polygonContains") {
+			ps := pathsTo(fn, func(s ast.Stmt) bool { return c.src(s) == "inside = !inside" })
+			if len(ps) > 0 {
+				host = fn
+				paths = append(paths, ps...)
 			}
-			return true
-		})
-		cond := findIf(c, fn, "inside = !inside")
-		switch {
-		case !binds["x, y := p[0], p[1]"] || !binds["xi, yi := outer[i][0], outer[i][1]"] || !binds["xj, yj := outer[j][0], outer[j][1]"]:
-			it.why = "coordinate bindings x,y / xi,yi / xj,yj not found"
-		case cond == nil:
-			it.why = "crossing test not found"
-		default:
-			if s, k, err := c.expr(cond); err != nil || k != boolean {
-				it.why = fmt.Sprint(err)
-			} else {
-				it.def = "fun (x y xi yi xj yj : Z) => " + s
+		}
+		if len(paths) != 1 {
+			it.why = "the statement inside = !inside was not found (or not unique)"
+		} else {
+			// bindings "a, b := P[0], P[1]" (the point) and "a, b := R[k][0], R[k][1]" (vertices)
+			env := map[string]string{}
+			var verts [][2]string
+			ring, nPoint := "", 0
+			bad := ""
+			ast.Inspect(host.Body, func(x ast.Node) bool {
+				as, ok := x.(*ast.AssignStmt)
+				if !ok || as.Tok != token.DEFINE || len(as.Lhs) != 2 || len(as.Rhs) != 2 {
+					return true
+				}
+				i0, ok0 := as.Rhs[0].(*ast.IndexExpr)
+				i1, ok1 := as.Rhs[1].(*ast.IndexExpr)
+				if !ok0 || !ok1 || c.src(i0.Index) != "0" || c.src(i1.Index) != "1" || c.src(i0.X) != c.src(i1.X) {
+					return true
+				}
+				if inner, ok := i0.X.(*ast.IndexExpr); ok {
+					if ring != "" && ring != c.src(inner.X) {
+						bad = "vertices of different rings"
+					}
+					ring = c.src(inner.X)
+					verts = append(verts, [2]string{c.src(as.Lhs[0]), c.src(as.Lhs[1])})
+					if len(verts) == 2 && c.src(inner.Index) == "" {
+						bad = "vertex index"
+					}
+				} else {
+					env[c.src(as.Lhs[0])], env[c.src(as.Lhs[1])] = "x", "y"
+					nPoint++
+				}
+				return true
+			})
+			switch {
+			case bad != "" || nPoint != 1 || len(verts) != 2:
+				it.why = "coordinate bindings (one point, two ring vertices) not found " + bad
+			default:
+				env[verts[0][0]], env[verts[0][1]] = "xi", "yi"
+				env[verts[1][0]], env[verts[1][1]] = "xj", "yj"
+				c.env = env
+				if s, err := c.conj(paths[0]); err != nil {
+					it.why = err.Error()
+				} else {
+					it.def = "fun (x y xi yi xj yj : Z) => " + s
+				}
 			}
 		}
 	} else {
 		it.why = "polygonContains not found"
 	}
 	it.emit(&b)
-	if err := tr.Emit(filepath.Join(out, "GenMputil.v"), b.Bytes()); err != nil {
+	if err := Emit(filepath.Join(out, "GenMputil.v"), b.Bytes()); err != nil {
 		fmt.Fprintln(os.Stderr, err)
 		os.Exit(1)
 	}
